@@ -70,6 +70,22 @@ Theorem C02_message_numbers_ascending : forall ps pn pd ops n b,
 Proof. exact reachable_keys_ascending. Qed.
 Print Assumptions C02_message_numbers_ascending.
 
+(* the hypotheses of C02_copyuid_found_by_number are met: a reachable INBOX holding one message (number 1),
+   into which two copies (contents 7, 8) and, between them, another process's delivery (content 99) are written:
+   the files get numbers 2, 3, 4, and after the resync each is found under its number with its own content *)
+Example C02_copyuid_example :
+  let w := fst (run (init_world 100 4 5) [OAppend 1 "inbox" [] 10 1]) in
+  match get_box w "inbox" with
+  | Some b =>
+      let mk c := {| m_key := 0; m_uid := 0; m_cid := c; m_date := 0; m_seqs := [] |} in
+      let b2 := with_disk b (add_files (b_disk b) (b_msgs b) [mk 7; mk 99; mk 8]) in
+      map m_key (b_msgs b) = [1] /\ map m_key (b_disk b2) = [2; 3; 4] /\
+      map (fun k => option_map (fun m => (m_cid m, m_uid m)) (msg_of_key (b_msgs (fst (resync b2))) k)) [2; 3; 4]
+      = [Some (7, 2); Some (99, 3); Some (8, 4)]
+  | None => False
+  end.
+Proof. vm_compute. repeat split; reflexivity. Qed.
+
 Example C02_example :
   let ops := [OAppend 1 "inbox" [] 0 1; OAppend 1 "inbox" [] 0 2; OSelect 1 "inbox" false;
               OStore 1 false [ENum 1] Add true ["\Deleted"%string]; OExpunge 1 None; OAppend 1 "inbox" [] 0 3] in
